@@ -695,8 +695,13 @@ def check(run):
     run.control("R02.9", r02_9, [("math/sequential/ops.py", None, None,
                                   "def _verif_control_r02_9(a, g):\n    out = np.zeros_like(a)\n    out.reshape(-1)[0] = g\n    return out")],
                 "write through out.reshape(-1) of a zeros_like buffer")
-    run.rule("R02.10", "a parameter whose conversion is recorded for backward reaches the forward kernel through that recorded value", floor=1)
+    run.rule("R02.10", "a parameter whose conversion is recorded for backward reaches the forward kernel through that recorded value", floor=0)
     run.do(r02_10)
+    run.control("R02.10", r02_10, [("indexing_routines/ops.py", None, None,
+                                   "class _VerifControlR0210(Operation):\n    def __call__(self, a, *, mask):\n        self.variables = (a,)\n"
+                                   "        self.mask = np.asarray(mask, dtype=bool)\n        return np.where(mask, a.data, 0)\n\n"
+                                   "    def backward_var(self, grad, index, **kwargs):\n        return np.where(self.mask, grad, 0)")],
+                "kernel fed the raw parameter while its conversion is recorded")
     run.rule("R02.7", "log-domain family (logaddexp, logaddexp2, softmax, logsoftmax, sigmoid, softmax-crossentropy, _softmax, logsumexp, gru.sig): "
              "finite operands and gradients give finite, nan-free forward values and gradients (extended-sign abstract interpretation of exp over/underflow)", floor=14)
     run.do(r02_7)
